@@ -117,9 +117,13 @@ def run(chk):
           ok = False
           for a, t in atomic_facts(flow, n):
               a = strip_casts(a)
-              if a.get("k") == "binop" and a.get("op") in ("<", ">") and t:
+              op = a.get("op") if a.get("k") == "binop" else None
+              if op in (">=", "<=") and not t:
+                  # the failed early-exit test `if (idx >= size) return ..;` establishes `idx < size`
+                  op, t = {">=": "<", "<=": ">"}[op], True
+              if op in ("<", ">") and t:
                   # exact bound: `index-variable < container.size()` (or mirrored); `<=` would admit one slot too many
-                  small, big = (a["lhs"], a["rhs"]) if a["op"] == "<" else (a["rhs"], a["lhs"])
+                  small, big = (a["lhs"], a["rhs"]) if op == "<" else (a["rhs"], a["lhs"])
                   if "size" in expr_str(prog, f, big) and "size" not in expr_str(prog, f, small) and mentions_same(prog, f, small, idx_expr, locs):
                       ok = True
           r2.ob("get_object: %s(%s) under a size comparison" % (what, expr_str(prog, f, idx_expr)[:40]), ok, "%s:%d" % (f["file"], n["l"]), f["q"],
@@ -224,13 +228,20 @@ def run(chk):
     for f_, n in expanded:
         e = strip_casts(n["e"])
         txt = expr_str(prog, f_, e)
+        # a slot named first (`const auto &entry = *(scope.begin() + idx); return ... &entry.second ...`) is the expression it names
+        locs_ = dict(locs)
+        locs_.update(ref_inits(f_))
+        for x in list(walk(e)):
+            v = locs_.get(x.get("vid")) if x.get("k") == "ref" and x.get("rk") in ("local", "binding") else None
+            if v is not None and v.get("init") is not None and any(y.get("k") == "call" and (y.get("name") in ("begin", "at_index") or y.get("op") == "[]") for y in walk(v["init"])):
+                txt += " " + expr_str(prog, f_, v["init"])
         if any(x.get("k") == "call" and x.get("name") == "get_object" for x in walk(e)):
             continue          # complete re-resolution
         if any(x.get("k") == "call" and x.get("name") in ("find", "find_if", "count", "lower_bound") for x in walk(e)) or \
-                any(x.get("k") == "ref" and x.get("rk") in ("local", "binding") and locs.get(x.get("vid")) is not None and locs[x["vid"]].get("init") is not None and
-                    any(y.get("k") == "call" and y.get("name") in ("find", "find_if", "lower_bound") for y in walk(locs[x["vid"]]["init"])) for x in walk(e)):
+                any(x.get("k") == "ref" and x.get("rk") in ("local", "binding") and locs_.get(x.get("vid")) is not None and locs_[x["vid"]].get("init") is not None and
+                    any(y.get("k") == "call" and y.get("name") in ("find", "find_if", "lower_bound") for y in walk(locs_[x["vid"]]["init"])) for x in walk(e)):
             searched.append(n)
-        elif any(x.get("k") == "call" and x.get("name") in ("at_index", "operator[]") for x in walk(e)) or "begin" in txt:
+        elif any(x.get("k") == "call" and x.get("name") in ("at_index", "operator[]") for x in walk(e)) or "begin" in txt or "at_index" in txt:
             exact += 1
     for n in searched:
         r5.ob("get_object/cached-local path returns only the exact remembered slot or a complete re-resolution", False, "%s:%d" % (f["file"], n["l"]), f["q"],
@@ -349,7 +360,18 @@ def hinted_find(chk, r3, prog, lookups=None):
         for n in walk(g["body"]):
             if n.get("k") == "return" and "next" in expr_str(prog, g, n.get("e") or {}):
                 facts = [(expr_str(prog, g, a), t) for a, t in atomic_facts(flow, n)]
-                ok = any("size" in s and ">" in s and "t_hint" in s and t for s, t in facts) and any(("comparator" in s or "==" in s) and t for s, t in facts)
+                hint = g["params"][1]["name"]
+
+                def in_range(a, t):
+                    a = strip_casts(a)
+                    op = a.get("op") if a.get("k") == "binop" else None
+                    if op in (">=", "<=") and not t:
+                        op, t = {">=": "<", "<=": ">"}[op], True
+                    if op not in ("<", ">") or not t:
+                        return False
+                    small, big = (a["lhs"], a["rhs"]) if op == "<" else (a["rhs"], a["lhs"])
+                    return strip_casts(small).get("k") == "ref" and strip_casts(small).get("name") == hint and "size" in expr_str(prog, g, big)
+                ok = any(in_range(a, t) for a, t in atomic_facts(flow, n)) and any(("comparator" in s or "==" in s) and t for s, t in facts)
                 if ok in seen3:
                     continue
                 seen3.add(ok)
